@@ -25,7 +25,7 @@ theorem Dst.trans {a b c : EP} (s : Dst a b) (t : Dst b c) : Dst a c :=
 theorem Dst.after {a b c : EP} (t : Dst b c) (s : Dst a b) : Dst a c := s.trans t
 
 /-- A state that differs from `e` in other fields than `objs`. -/
-macro "mn" : tactic => `(tactic| exact ⟨fun _ o h => ⟨o, h, rfl⟩⟩)
+local macro "mn" : tactic => `(tactic| exact ⟨fun _ o h => ⟨o, h, rfl⟩⟩)
 
 /-- The modification keeps flow id and target. -/
 macro "dsf" : tactic =>
